@@ -89,6 +89,7 @@ fn parse_init(s: &str) -> Option<Init> {
         "PushRemove" => Some(Init::PushRemove(nums[0], nums[1])),
         "Dups" => Some(Init::Dups(nums[0])),
         "GrowShrink" => Some(Init::GrowShrink(nums[0], nums[1], nums[2] as u8)),
+        "GrowShrinkThen" => Some(Init::GrowShrinkThen(nums[0], nums[1], nums[2] as u8, nums[3] as u32, nums[4] as u8)),
         _ => None,
     }
 }
@@ -183,6 +184,19 @@ fn state_runs(tier: Tier) -> Vec<RunCfg> {
             for how in 0..4u8 {
                 inits.push(Init::GrowShrink(n, 3, how));
                 inits.push(Init::GrowShrink(n, n / 8 + 1, how));
+            }
+        }
+        // ... shrunk to nothing (or one entry) and refilled with every layout of 2..=4 entries
+        // over two keys: duplicate-key layouts x an oversized table
+        if [15, 16, 29, 57, 113].contains(&n) || (tier == Tier::Thorough && n <= 449) {
+            for how in 0..4u8 {
+                for keep in 0..2usize {
+                    for len in 2..=4u8 {
+                        for pattern in 0..(1u32 << len) {
+                            inits.push(Init::GrowShrinkThen(n, keep, how, pattern, len));
+                        }
+                    }
+                }
             }
         }
     }
@@ -362,7 +376,7 @@ fn c14_law_universe(rep: &mut Report, tier: Tier, leaves: &[RV], keys: &[&str], 
             if eq && hashes[i] != hashes[j] {
                 t.violation("", "equal values hash differently".to_string(), case());
             }
-            if (a <= b) != (c != Greater) || (a < b) != (c == Less) || (a > b) != (c == Greater) || (a >= b) != (c != Less) {
+            if (a <= b) != (c != Greater) || (a < b) != (c == Less) || (a > b) != (c == Greater) || (a >= b) != (c != Less) || (a != b) == eq || a.ne(b) == eq {
                 t.violation("", "comparison operators disagree with cmp".to_string(), case());
             }
             if let (Value::Object(x), Value::Object(y)) = (a, b) {
@@ -426,6 +440,160 @@ fn c14_law_universe(rep: &mut Report, tier: Tier, leaves: &[RV], keys: &[&str], 
     rep.absorb(t);
     rep.tally.sample(json!({"law_universe_size": vals.len(), "first": univ.first().map(|v| v.show()), "last": univ.last().map(|v| v.show())}));
     rep.bounds[uname] = json!({"values": vals.len(), "max_nodes": n, "leaves": leaves.iter().map(|l| l.show()).collect::<Vec<_>>(), "keys": keys});
+}
+
+/// C14, leaked guards: `remove`, `insert` and `insert_front` hand out guards that finish their
+/// work when dropped; `mem::forget` on such a guard (safe Rust) stops the work half-way. Whatever
+/// entries the object is left with, its equality, ordering and hashing must be those of a
+/// freshly built object with the same entries (C14: "never on the internal state of its key
+/// index"). Nothing is assumed about *which* entries remain after a leak (that would be C06,
+/// which does not list leaks): the reference is rebuilt from the object's own entry list. All
+/// key sequences of length <= 4 over three keys (and two long ones) x the three operations x
+/// every key of the universe x every number of steps taken before the leak, bare and followed by
+/// one more operation.
+fn c14_leaks(rep: &mut Report) {
+    use json_syntax::object::{Entry, Key};
+    use json_syntax::{NumberBuf, Object};
+    let keys = ["a", "b", LONG_KEY];
+    let num = |i: usize| Value::Number(NumberBuf::new(i.to_string().into_bytes().into()).unwrap());
+    let mut seqs: Vec<Vec<usize>> = vec![vec![]];
+    let mut frontier = seqs.clone();
+    for _ in 0..4 {
+        let mut next = Vec::new();
+        for s in &frontier {
+            for k in 0..keys.len() {
+                let mut s2 = s.clone();
+                s2.push(k);
+                next.push(s2);
+            }
+        }
+        seqs.extend(next.iter().cloned());
+        frontier = next;
+    }
+    // two long ones: 20 distinct keys (past the growth thresholds of the index) with a
+    // triple of "a" spread over them, and 40 entries of one key
+    let count = seqs.len() + 2;
+    let items: Vec<usize> = (0..count).collect();
+    let nseq = seqs.len();
+    let t = explore::par_tally(items, |si, t| {
+        let build = || -> Object {
+            let mut o = Object::new();
+            if si < nseq {
+                for (i, &k) in seqs[si].iter().enumerate() {
+                    o.push(Key::from(keys[k]), num(i));
+                }
+            } else if si == nseq {
+                for i in 0..20 {
+                    if i % 7 == 3 {
+                        o.push(Key::from("a"), num(i));
+                    }
+                    o.push(Key::from(model::pumped_key(i).as_str()), num(i));
+                }
+            } else {
+                for i in 0..40 {
+                    o.push(Key::from("a"), num(i));
+                }
+            }
+            o
+        };
+        let len = build().len();
+        for target in ["a", "b", LONG_KEY, "absent"] {
+            for op in 0..3u8 {
+                for steps in 0..=(len.min(5) + 1) {
+                    for follow in 0..6u8 {
+                        t.evals += 1;
+                        let case = json!({"kind": "leak", "object": si, "target": target, "op": op, "steps": steps, "follow": follow});
+                        let r = explore::guard(|| {
+                            let mut o = build();
+                            match op {
+                                0 => {
+                                    let mut g = o.remove(target);
+                                    for _ in 0..steps {
+                                        if g.next().is_none() {
+                                            break;
+                                        }
+                                    }
+                                    std::mem::forget(g);
+                                }
+                                1 => {
+                                    if let Some(mut g) = o.insert(Key::from(target), num(99)) {
+                                        for _ in 0..steps {
+                                            if g.next().is_none() {
+                                                break;
+                                            }
+                                        }
+                                        std::mem::forget(g);
+                                    }
+                                }
+                                _ => {
+                                    let mut g = o.insert_front(Key::from(target), num(99));
+                                    for _ in 0..steps {
+                                        if g.next().is_none() {
+                                            break;
+                                        }
+                                    }
+                                    std::mem::forget(g);
+                                }
+                            }
+                            match follow {
+                                0 => {}
+                                1 => {
+                                    o.push(Key::from(target), num(7));
+                                }
+                                2 => {
+                                    o.remove(target).for_each(drop);
+                                }
+                                3 => {
+                                    o.insert(Key::from("b"), num(8)).into_iter().flatten().for_each(drop);
+                                }
+                                4 => {
+                                    o.remove_at(0);
+                                }
+                                _ => {
+                                    o.sort();
+                                }
+                            }
+                            let entries: Vec<Entry> = o.entries().to_vec();
+                            let fresh = Object::from_vec(entries.clone());
+                            let mut bad: Vec<String> = Vec::new();
+                            use std::cmp::Ordering::Equal;
+                            if !(o == fresh) || !(fresh == o) || o != fresh || fresh != o {
+                                bad.push("== / != say the object differs from".into());
+                            }
+                            if o.cmp(&fresh) != Equal || fresh.cmp(&o) != Equal || o.partial_cmp(&fresh) != Some(Equal) {
+                                bad.push("cmp does not give Equal against".into());
+                            }
+                            if std_hash(&o) != std_hash(&fresh) {
+                                bad.push("the hash differs from that of".into());
+                            }
+                            let shown = fresh.entries().iter().map(|e| format!("{}:{}", e.key, e.value)).collect::<Vec<_>>().join(",");
+                            let (vo, vf) = (Value::Object(o), Value::Object(fresh));
+                            if vo != vf || vo.cmp(&vf) != Equal || std_hash(&vo) != std_hash(&vf) {
+                                bad.push("wrapped in Value, ==, cmp or the hash tell it apart from".into());
+                            }
+                            (bad, shown)
+                        });
+                        match r {
+                            Ok((bad, shown)) => {
+                                if bad.is_empty() {
+                                    t.outcome("leaked guard: equality, order and hash still those of the entries");
+                                }
+                                for b in bad {
+                                    let opn = ["remove", "insert", "insert_front"][op as usize];
+                                    t.violation("", format!("after {opn}({target:?}) on object #{si}, {steps} step(s) of the returned guard and mem::forget (follow-up {follow}): {b} a freshly built object with the same entries {{{shown}}}"), case.clone());
+                                }
+                            }
+                            // (a panic here says nothing about equality: not C14's business)
+                            Err(_) => t.outcome("leaked guard: the library panicked afterwards (not judged)"),
+                        }
+                    }
+                }
+            }
+        }
+        t.nontrivial(&si);
+    });
+    rep.bounds["leaked_guards"] = json!({"objects": count, "key_sequences_up_to": 4, "keys": 3, "operations": ["remove", "insert", "insert_front"], "targets": 4, "steps_before_the_leak": "0..=min(len,5)+1", "follow_ups": ["none", "push", "remove", "insert", "remove_at(0)", "sort"]});
+    rep.absorb(t);
 }
 
 /// C14, construction routes: the same content built through every public route (so that
@@ -1137,6 +1305,7 @@ fn main() {
             c14_laws(&mut rep, args.tier);
             c14_routes(&mut rep);
             c14_wide_laws(&mut rep, args.tier);
+            c14_leaks(&mut rep);
             rep.rule = "histories: every reachable state of the C06 search is compared (==, cmp, partial_cmp, hash, also wrapped in Value) with from_vec / from_iter / clone builds of the same entry list, under three hash modes; laws: all ordered pairs and all triples a<=b<=c of the universe of all values up to the node bound".into();
             rep.assumptions.push("std's DefaultHasher::new() (fixed keys) is the probe hasher; equality of hashes is required only for equal values".into());
             rep.finish()
